@@ -32,6 +32,7 @@ RULE += (' Also: a StopAsyncIteration raised by an awaitable given to await_each
 RULE += (' Also: sync() of classes (plain, and with instances that have an async def __call__).')
 RULE += (' Also: plain callables presenting themselves as the coroutine function they wrap (functools.wraps / __wrapped__) and returning plain values.')
 RULE += (' Also: items / results that merely expose an __await__ attribute (not awaitable); concurrent.futures.Future results.')
+RULE += (' Also: any_iter over objects offering both iteration protocols.')
 ASSUMPTIONS = ["direct specification oracle (no stdlib twin exists for these helpers)"]
 EXHAUSTIVE = {"quick": True, "thorough": True}
 MAX_SHARDS = 8
@@ -41,7 +42,7 @@ def cases(tier, seed, shard, nshards):
     idx = 0
     for n in range(0, 7):
         for outer_aw in (False, True, "awaitobj", "future_like"):
-            for cont in ("list", "iterator", "aiter"):
+            for cont in ("list", "iterator", "aiter", "dual"):
                 for item_aw in (False, True, "awaitobj", "mixed", "lookalike"):
                     for steps in range(0, n + 2):
                         for susp in (0, 1):
@@ -401,6 +402,21 @@ def run_any_iter(case, stats):
             for i, it in enumerate(items):
                 yield cell(i, it)
         cont = agen()
+        if case["cont"] == "dual":
+            # an object offering BOTH protocols (a result set / stream whose synchronous iteration is refused - or gives
+            # something else - in asynchronous code): it is asynchronously iterable, and that is how it is iterated
+            class Dual:
+                def __init__(self, inner):
+                    self.inner = inner
+
+                def __aiter__(self):
+                    return self.inner
+
+                def __iter__(self):
+                    CTX.foreign.append("an asynchronously iterable object was iterated through its synchronous protocol")
+                    raise RuntimeError("synchronous iteration in an asynchronous context")
+
+            cont = Dual(cont)
     if case["outer_aw"]:
         async def outer():
             events.append(("outer",))
